@@ -23,6 +23,7 @@ OBLIGATIONS.append(dict(id='C10.lexer.nopanic.new', engine='V', verus_fn='Lexer:
 OBLIGATIONS.append(dict(id='C10.format.parse', engine='V', verus_fn='Parser::parse_output_format', label='C10.format.parse', complete=True, bound=None, units=[], harness='verus:Parser::parse_output_format', tier='quick',
     desc='real parse_output_format, every token vector: without INTO the format is the default (tabs) and nothing is consumed; `into W` is the format the word W denotes or an error (an unknown format name is rejected, never replaced by a default); INTO followed by anything else is an error'))
 OBLIGATIONS.append(ob('C10.date.calendar', 'verif_frag::dateprecision::c10_date_calendar', 'calendar part of parse_datetime (everything after the time-of-day range check, verbatim, on a shim calendar): for every year 0..9999 and every 1-2 digit month / day a date that is not in the calendar (month 13, 30 February, day 0) yields an error and never a panic; every calendar date is accepted', units=['dateprecision']))
-CANARIES = []
+OBLIGATIONS.append(ob('C10.clause.sequence', 'verif_frag::parsetop::c10_clause_sequence', 'Parser::parse after the token loop (verbatim on a shim Parser with scripted clause parsers), all outcomes: an error in any clause or a token left after the last clause yields Err and no Query; otherwise each clause result lands in its own Query field, the clauses run in the documented order, roots_parsed / where_parsed are set before the clauses that read them, and there is always a root (in front of WHERE, else after the other clauses, else the default root with the stand-alone options)', units=['parsetop']))
+CANARIES = [dict(harness='verif_frag::parsetop::canary_parsetop_must_fail', units=['parsetop']), ]
 ASSUMPTIONS = ['termination is proved for the 19 parser methods under contract only', 'is_root_option_keyword is trusted (external_body: string prefix tests, total)']
 NOT_COVERED = ['parse_roots and Parser::parse (not under contract; the token loop of Parser::parse terminates because every token consumes input - proved for the lexer, the loop itself is not in the verified text)', 'looks_like_date / looks_like_expression inside the lexer (regex, closures: external stubs)', 'termination of parse_roots and of the search itself', 'evaluator-side literal errors other than booleans (regex, dates)', 'process-level behaviour']
